@@ -44,86 +44,10 @@ def _collab_sources(ctx: Ctx, g: Graph, kinds=('event', 'store')) -> Set[int]:
 
 def rule_pipeline_events(ctx: Ctx, out: Collector) -> None:
     """EV-1: PipelineChart.run emits pipeline_start, runs the entrypoint, emits pipeline_complete with the
-    object it then returns - in that order, each exactly once, on every path (event managers do not raise)."""
-    unit = ctx.p.func(CHART_RUN)
-    g = ctx.graph(CHART_RUN, depth=max(ctx.depth, 10))
-    root = g.root_inst
-    collab = _collab_sources(ctx, g)
-    sym_of: Dict[int, str] = {}
-    c_arg: Dict[int, tuple] = {}
-    from ..engine import follow_values
-
-    def value_terms(expr, inst):
-        if expr is None:
-            return frozenset()
-        direct = sym.term(ctx.p, expr, inst)
-        return frozenset([direct]) | frozenset(sym.term(ctx.p, e, i) for e, i in follow_values(ctx.p, expr, inst))
-
-    for ev in g.events('call'):
-        k = emit_kind(ctx, ev)
-        if ev.inst is not root and k not in ('on_pipeline_start', 'on_pipeline_complete'):
-            continue
-        if k == 'on_pipeline_start':
-            sym_of[ev.id] = 'S'
-        elif k == 'on_pipeline_complete':
-            sym_of[ev.id] = 'C'
-            c = ev.node
-            arg = c.args[0] if c.args else next((kw.value for kw in c.keywords if kw.arg == 'result'), None)
-            c_arg[ev.id] = (arg, ev.inst)
-        elif isinstance(ev.node, ast.Call) and isinstance(ev.node.func, ast.Attribute) and ev.node.func.attr == 'run' \
-                and 'entrypoint' in unparse(ev.node.func.value):
-            sym_of[ev.id] = 'R'
-    for ev in g.events('return'):
-        if ev.inst is root:
-            sym_of[ev.id] = 'ret'
-    if set(sym_of.values()) != {'S', 'R', 'C', 'ret'}:
-        raise AnalysisError(f'PipelineChart.run: alphabet incomplete ({sorted(set(sym_of.values()))}) (EV-1 anchors vanished)')
-    delta = {(0, 'S'): 1, (1, 'R'): 2, (2, 'C'): 3, (3, 'ret'): 4}
-    s = Search(ctx.p, g, EXC_LABELS)
-    first_r = {}
-
-    def estep(prev, lab, e, state, facts):
-        q, cname = state
-        if prev is not None and lab == 'exc' and prev.id in collab:
-            return None                       # precondition: event managers do not raise
-        sy = sym_of.get(e.id)
-        if sy is None:
-            return state
-        if sy == 'R':
-            # the inlined implementations and the opaque protocol call are alternatives of one R
-            if q == 2:
-                return state
-        nq = delta.get((q, sy))
-        if nq is None:
-            return ('BAD', f'{sy} in state {q}')
-        if sy == 'C':
-            arg, ainst = c_arg.get(e.id)
-            cname = value_terms(arg, ainst)
-        if sy == 'ret':
-            rv = e.info.get('value')
-            rterms = value_terms(rv, e.inst)
-            if not (rterms & cname) or (len(rterms) > 2 and rterms != cname):
-                return ('BAD', f'returns {unparse(rv) if rv is not None else None} but completed with '
-                               f'{sorted(sym.show(t) for t in cname)[:2]}')
-        return (nq, cname)
-
-    def goal(e, state, facts):
-        if state[0] == 'BAD':
-            return True
-        if e.id == g.exit and state[0] != 4:
-            return True
-        return False
-
-    res = s.run([(g.entry, (0, None), frozenset())], None, goal, edge_step=estep)
-    cons = f'{unit.module.name}::{unit.qualname}::pipeline_start . entrypoint.run . pipeline_complete(result) . return result'
-    if res is None:
-        out.ok('EV-1', cons, ctx.p.loc(unit, unit.node), 'every path of run() spells S R C ret; the completed object is the returned one')
-    else:
-        st = res[1]
-        why = st[1] if st[0] == 'BAD' else f'run() returns in state {st[0]} of S R C ret'
-        out.bad('EV-1', cons, ctx.p.loc(unit, unit.node), f'a path of PipelineChart.run leaves the language pipeline_start . entrypoint.run . '
-                                                          f'pipeline_complete(result) . return result: {why}', path_text(g, res[0]))
-    # no reassignment of the result between C and ret is covered by the name equality on single-assignment paths
+    object it then returns - in that order, each exactly once (event managers do not raise).  Decided by interpreting
+    run(), the context and the event mixin over chart worlds (cw.py)."""
+    from .cw import rule_chart_worlds_events
+    rule_chart_worlds_events(ctx, out)
 
 
 def rule_node_events(ctx: Ctx, out: Collector) -> None:
@@ -239,89 +163,7 @@ def _pub_of_executed(ctx: Ctx, g: Graph, pb) -> bool:
 
 
 def rule_emit_all(ctx: Ctx, out: Collector) -> None:
-    """EV-3: the dispatcher awaits the callback of every registered manager, in list order: on the graph of the
-    dispatcher every way around the manager loop passes the awaited call of the looked-up callback unless the
-    path has established that the manager has no such callback; nothing leaves the loop early."""
-    from ..guards import decompose
-    from .common import loop_region
-    n = 0
-    for unit in ctx.p.functions.values():
-        if unit.cls is None or not unit.is_async:
-            continue
-        env = FuncEnv.of(ctx.p, unit)
-        loops = [x for x in env.own_nodes() if isinstance(x, ast.For)]
-        for lp in loops:
-            # the look-up of the manager's hook: getattr(<manager>, <event>, ...) itself, or a helper called with the
-            # loop's manager variable, in a loop over the registered event managers
-            tnames = {x.id for x in ast.walk(lp.target) if isinstance(x, ast.Name)}
-            getattrs = [x for x in ast.walk(lp) if isinstance(x, ast.Call) and isinstance(x.func, ast.Name) and x.func.id == 'getattr']
-            if not getattrs and 'event_manager' in unparse(lp.iter).lower():
-                getattrs = [a.value for a in ast.walk(lp) if isinstance(a, ast.Assign) and isinstance(a.value, ast.Call)
-                            and any(isinstance(x, ast.Name) and x.id in tnames for arg in a.value.args for x in ast.walk(arg))]
-            if not getattrs:
-                continue
-            n += 1
-            cons = f'{unit.module.name}::{unit.qualname}::for {unparse(lp.target)} in {unparse(lp.iter)}: await callback'
-            problems = []
-            it = unparse(lp.iter)
-            if any(w in it for w in ('sorted(', 'reversed(', 'set(', '[:', '[1:', '[-')):
-                problems.append(f'iterates {it}, not the registered list in order')
-            g = ctx.graph(unit.fid)
-            heads = [ev for ev in g.events('loop') if ev.node is lp and ev.inst.parent is None]
-            if not heads:
-                raise AnalysisError(f'{unit.fid}: dispatcher loop not in the graph')
-            head = heads[0]
-            region = loop_region(g, head, labels=EXC_LABELS)
-            # the callback variable(s): names assigned from getattr(<manager>, <event>, ...)
-            cbs = {t.id for a in ast.walk(lp) if isinstance(a, ast.Assign) and any(a.value is ga for ga in getattrs)
-                   for t in a.targets if isinstance(t, ast.Name)}
-            delivered = set()
-            for m in region:
-                ev = g.evs[m]
-                if ev.kind == 'await' and ev.info.get('call') is not None:
-                    c = g.evs[ev.info['call']].node
-                    if isinstance(c, ast.Call) and (isinstance(c.func, ast.Name) and c.func.id in cbs or any(c.func is ga for ga in getattrs)):
-                        delivered.add(m)
-            if not delivered:
-                problems.append('the callback is not awaited')
-            for m in region:
-                ev = g.evs[m]
-                if ev.kind in ('break', 'return') and ev.inst is head.inst:
-                    problems.append('leaves the loop early')
-
-            def no_callback(test, pol) -> bool:
-                parts = []
-                decompose(test, pol, parts)
-                for e, p_ in parts:
-                    if isinstance(e, ast.Name) and e.id in cbs and not p_:
-                        return True
-                    if isinstance(e, ast.Compare) and len(e.ops) == 1 and isinstance(e.ops[0], ast.Is) and isinstance(e.left, ast.Name) \
-                            and e.left.id in cbs and isinstance(e.comparators[0], ast.Constant) and e.comparators[0].value is None and p_:
-                        return True
-                    if isinstance(e, ast.Call) and isinstance(e.func, ast.Name) and e.func.id == 'callable' and e.args \
-                            and isinstance(e.args[0], ast.Name) and e.args[0].id in cbs and not p_:
-                        return True
-                return False
-
-            s = Search(ctx.p, g, NORMAL_LABELS)
-
-            def estep(prev, lab, e, state, facts):
-                if prev is not None and prev.kind == 'branch' and lab in ('T', 'F') and prev.info.get('test') is not None \
-                        and no_callback(prev.info['test'], lab == 'T'):
-                    return 1
-                if e.id in delivered:
-                    return 1
-                return state
-            tsucc = [(m, 0, frozenset()) for m, lab in g.succ[head.id] if lab == 'T']
-            res = s.run(tsucc, None, lambda e, st, f: e.id == head.id and st == 0, edge_step=estep)
-            if res is not None and delivered:
-                skip = [g.evs[i] for i in res[0] if g.evs[i].kind == 'branch']
-                why = f'filters managers by {skip[-1].text(60)}' if skip else 'skips managers'
-                problems.append(why)
-            if not problems:
-                out.ok('EV-3', cons, ctx.p.loc(unit, lp), 'every manager\'s callback is awaited, in list order')
-            else:
-                out.bad('EV-3', cons, ctx.p.loc(unit, lp), 'the event dispatcher does not deliver the event to every manager in order: '
-                        + '; '.join(sorted(set(problems))))
-    if n == 0:
-        raise AnalysisError('event dispatcher loop not found (EV-3 anchor vanished)')
+    """EV-3: the dispatcher awaits the callback of every registered manager that has one, in list order, with the context and
+    the payload.  Decided by interpreting the context class and the event mixin over a four-manager world (cw.py)."""
+    from .cw import rule_dispatch_worlds
+    rule_dispatch_worlds(ctx, out)
